@@ -19,8 +19,16 @@ use std::time::Duration;
 
 fn theme_doc(rng: &mut Rng) -> String {
     // many d-* classes (the sets behind the injected styles), several failing elements (multi error)
-    let classes = ["d-fill-red", "d-stroke-blue", "d-text-bold", "d-grid-5", "d-grid-10", "d-hatch", "d-crosshatch-3", "d-stipple", "d-dash", "d-arrow", "d-biarrow", "d-softshadow", "d-hardshadow", "d-text-small", "d-thick", "d-surround", "d-flow", "d-dot", "d-fill-none", "d-text-ol"];
+    let classes = ["d-fill-red", "d-stroke-blue", "d-text-bold", "d-grid-5", "d-grid-10", "d-hatch", "d-crosshatch-3", "d-stipple", "d-dash", "d-arrow", "d-biarrow", "d-softshadow", "d-hardshadow", "d-text-small", "d-thick", "d-surround", "d-flow", "d-dot", "d-fill-none", "d-text-ol", "d-text-largest", "d-text-smaller", "d-text-medium"];
     let mut s = String::from("<svg>");
+    // one document in three sets its own theme / base font size: what the injected rules are computed from
+    // must be this document's, whatever the process transformed before
+    if rng.chance(1, 3) {
+        s.push_str("<config");
+        if rng.chance(1, 2) { s.push_str(&format!(" theme=\"{}\"", rng.pick(&["dark", "light", "bold", "fine", "glass"]))); }
+        if rng.chance(2, 3) { s.push_str(&format!(" font-size=\"{}\"", rng.pick(&["2", "6", "4.5"]))); }
+        s.push_str("/>");
+    }
     for i in 0..2 + rng.below(8) {
         let mut cl: Vec<&str> = (0..1 + rng.below(5)).map(|_| *rng.pick(&classes)).collect();
         cl.dedup();
